@@ -338,6 +338,16 @@ Theorem C14_P_att_sound :
 Proof. exact P_att_sound. Qed.
 Print Assumptions C14_P_att_sound.
 
+(* The whole predicate over a whole history: whenever the implementation's observed outputs agree
+   with the model's (the correspondence test [agree] of the check), P_b holds on them -- for every
+   history of subscribe / attest operations with proper digests.  So a VIOLATION can only arise
+   where the implementation departs from the model, and the model satisfies the property by the
+   theorems above: the predicate itself cannot raise a false alarm. *)
+Theorem C14_P_b_holds_wherever_model_agrees :
+  forall c : case, case_digests_ok c -> agree c = true -> P_b c = true.
+Proof. exact agree_implies_P_b. Qed.
+Print Assumptions C14_P_b_holds_wherever_model_agrees.
+
 (* ------------------------------------------------------------------------------------------- *)
 (* The pinned tree (before the two `fix:` commits), kept as refutations with their witnesses.  *)
 
